@@ -17,7 +17,8 @@ The model follows the code, not a specification of it:
                                        parents kept maximal; the "reuse map object" step, which decides the dict order)
 * `endBranch`                        — the "not merged" pseudo build (repaired semantics of commit 8729393), pending
                                        component bumps, `prev_branches_builds.update`
-* `rgraph`                           — the loop of `RGraph.__init__`, reversal and dropping of empty branches.
+* `readBranches` / `rgraph`          — the loop of `RGraph.__init__` with `min_rbuild_timestamp` (`minTs`) and the
+                                       obsolete-branch test (`obsolete`), reversal and dropping of empty branches.
 
 Python `dict`s are association lists; where the iteration order of a dict is observable (parent builds of a
 build, commits of a build) the list keeps the insertion order of the code.  Commit ids are positions in
@@ -26,8 +27,12 @@ build, commits of a build) the list keeps the insertion order of the code.  Comm
 model with the empty plug (`Plug.none`), C07 with the plug of `Model/GhistComp.lean` — the definitions below are
 shared, so every C06 theorem proved for an arbitrary plug also holds for multi-repository reports.
 
-Commit times are not modelled: the properties quantify over histories whose times lie inside the cut-off windows
-(no branch is dropped as obsolete, every component with reported builds is relevant for every commit).
+Commit times are part of the model (`Commit.time`): a branch whose head is more than `_OBSOLETE_BRANCH_CUTOFF_PERIOD`
+older than every build found so far is dropped, and the set of relevant components narrows down the DFS
+(`Plug.relStep`, handed from a commit to its parents).  The properties quantify over histories whose times lie inside
+the cut-off windows: `Hist.InWindow` (no branch is dropped) and `CompWindow` of `Model/GhistComp.lean` (every component
+with reported builds stays relevant); both are stated with the periods the translator reads from the source.  Tag
+names are turned into build numbers by `Model/GhistTags.lean`.
 -/
 namespace Ghist
 open Ak
